@@ -241,6 +241,18 @@ func c11LunaticFamily(c *c11Ctx, pfx string, h, ch int64) {
 		l.Signers = []string{"n5"}
 		l.Byz = []c11NP{}
 	})
+	// backed by the weakest common validator only
+	low := ""
+	for _, n := range c11SortedNames(cv) {
+		if low == "" || cv[n] < cv[low] {
+			low = n
+		}
+	}
+	add("weakcommon", func(l *c11Lca) {
+		l.CVals = map[string]int64{low: cv[low], "n5": 2*c11Total(cv) + 5}
+		l.Signers = c11SortedNames(l.CVals)
+		l.Byz = []c11NP{{N: low, P: cv[low]}}
+	})
 	// conflicting set not 2/3 signed
 	add("selfweak", func(l *c11Lca) {
 		l.CVals["n5"] = 2*c11Total(cv) + 5
